@@ -468,10 +468,13 @@ func c03Getters(p *packet.Packet, m *ref.Packet, tol bool, saw *bool) *hx.Failur
 		}
 		base, ext := ref.DecodePCR(*g.h)
 		want := base*300 + uint64(ext)
-		if err != nil || v != want {
+		// a field that became present without a value holds whatever bytes were there: an extension above 299 is no clock
+		// value (what the getter reports for it is not stated), and the six reserved bits are not value bits
+		if err != nil || (v != want && ext <= 299) {
 			return hx.Failf("getter-"+g.name, "%s method = (%d, %v), want %d", g.name, v, err, want)
 		}
-		if ferr != nil || !bytes.Equal(fb, *g.h) {
+		sameValueBits := len(fb) == 6 && len(*g.h) == 6 && bytes.Equal(fb[:4], (*g.h)[:4]) && fb[4]|0x7E == (*g.h)[4]|0x7E && fb[5] == (*g.h)[5]
+		if ferr != nil || !sameValueBits {
 			return hx.Failf("getter-"+g.name+"-func", "adaptationfield.%s = (%x, %v), want %x", g.name, fb, ferr, []byte(*g.h))
 		}
 	}
